@@ -7,4 +7,11 @@ extern "C" {
 void *scalable_aligned_malloc(size_t size, size_t alignment);
 void scalable_aligned_free(void *ptr);
 size_t scalable_msize(void *ptr);
+// the rest of the C interface (blocks of either family may be released with either free function, as in the library)
+void *scalable_malloc(size_t size);
+void scalable_free(void *ptr);
+void *scalable_calloc(size_t nobj, size_t size);
+void *scalable_realloc(void *ptr, size_t size);
+void *scalable_aligned_realloc(void *ptr, size_t size, size_t alignment);
+int scalable_posix_memalign(void **memptr, size_t alignment, size_t size);
 }
